@@ -571,16 +571,16 @@ Lemma sorted_flag_adv nix q len :
   sorted_flag nix (Some (mkAdv (VInt q) len)) = (q =? 0) && forallb nonneg_step nix.
 Proof. unfold sorted_flag, s_sorted_init. cbn. apply sorted_fold. Qed.
 
-(* with non-negative steps the coordinate map is monotone on the selected elements *)
+(* with non-negative steps the coordinate map is monotone on the selected elements (same a) *)
 Lemma build_mono (nix : list nentry) : forall (sh : shape) (seen : bool) (t t' : idx) (a : Z),
-  nwf nix sh -> no_arr nix = true -> forallb nonneg_step nix = true ->
+  nwf nix sh -> forallb nonneg_step nix = true ->
   matches nix t a = true -> matches nix t' a = true -> lex_lt t t' ->
   lex_lt (build nix seen t a) (build nix seen t' a).
 Proof.
-  induction nix as [|e r IH]; intros sh seen t t' a Hwf Ha Hp Hm Hm' Hlt.
+  induction nix as [|e r IH]; intros sh seen t t' a Hwf Hp Hm Hm' Hlt.
   - destruct t; [destruct t'; [destruct Hlt|discriminate]|discriminate].
-  - simpl in Ha, Hp. apply andb_true_iff in Ha, Hp. destruct Ha as [Hae Ha], Hp as [Hpe Hp].
-    destruct e as [i|s e st| |l]; try discriminate; cbn [nwf matches] in Hwf, Hm, Hm'.
+  - simpl in Hp. apply andb_true_iff in Hp. destruct Hp as [Hpe Hp].
+    destruct e as [i|s e st| |l]; cbn [nwf matches] in Hwf, Hm, Hm'.
     + destruct sh as [|d sh']; [contradiction|]. destruct Hwf as [_ Hwf].
       destruct t as [|c t]; [discriminate|]. destruct t' as [|c' t']; [discriminate|].
       apply andb_true_iff in Hm, Hm'. destruct Hm as [Hc Hm], Hm' as [Hc' Hm'].
@@ -595,6 +595,14 @@ Proof.
       * left. nia.
       * right. split; [reflexivity|]. eapply IH; eauto.
     + cbn [build]. right. split; [reflexivity|]. eapply IH; eauto.
+    + destruct sh as [|d sh']; [contradiction|]. destruct Hwf as [_ Hwf].
+      destruct t as [|c t]; [discriminate|]. destruct t' as [|c' t']; [discriminate|].
+      apply andb_true_iff in Hm, Hm'. destruct Hm as [Hc Hm], Hm' as [Hc' Hm'].
+      apply andb_true_iff in Hc, Hc'. destruct Hc as [_ Hc], Hc' as [_ Hc'].
+      simpl in Hlt. destruct Hlt as [Hlt|[_ Hlt]]; [lia|].
+      cbn [build tl]. destruct seen.
+      * eapply IH; eauto.
+      * right. split; [reflexivity|]. eapply IH; eauto.
 Qed.
 
 Lemma SS_map_lt {B} (R : B -> B -> Prop) (f : nat -> B) l :
@@ -792,6 +800,12 @@ Proof.
   apply Nat.eqb_eq in El. auto.
 Qed.
 
+Lemma in_seq0 p n : In p (seq 0 n) <-> (p < n)%nat.
+Proof. rewrite in_seq. lia. Qed.
+
+Lemma pt_in_range pts sh p : Forall (in_range sh) pts -> (p < length pts)%nat -> in_range sh (pt pts p).
+Proof. intros H Hp. rewrite Forall_forall in H. apply H. apply nth_In. exact Hp. Qed.
+
 Section GetitemBasic.
   Variable V : Type.
 
@@ -819,7 +833,7 @@ Section GetitemBasic.
     assert (Hwf : nwf nix sh) by (apply norm_all_nwf; auto; eapply expand_nzs; eauto).
     assert (Hna : no_arr nix = true) by (apply basic_norm_no_arr; eapply basic_expand; eauto).
     assert (Hn0 : n_arr nix = 0%nat) by (apply no_arr_n_arr; assumption).
-    assert (Harr : (n_arr nix <= 1)%nat) by lia.
+    assert (Harr : (n_arr nix <= 1)%nat) by (rewrite Hn0; repeat constructor).
     rewrite Hr. cbn [bind]. unfold broadcast. rewrite (adv_lens_no_adv _ (to_r_no_adv nix Hna)). cbn [bcast_len fold_right forallb bind].
     rewrite (stretch_no_adv _ _ (to_r_no_adv nix Hna)). set (rs := map to_r nix).
     unfold getitem. fold sh. rewrite Hn. cbn [bind].
@@ -842,10 +856,10 @@ Section GetitemBasic.
       { intros s e st Hin. eapply nwf_steps; [exact Hwf|]. apply Hincl. exact Hin. }
       assert (Hok : Forall row_ok inds) by (apply rows_ok; assumption).
       assert (Hptlen : forall j, (j < length pts)%nat -> length (pt pts j) = length sh).
-      { intros j Hj. apply in_range_length. rewrite Forall_forall in Hrange. apply Hrange. apply nth_In. exact Hj. }
+      { intros j Hj. apply in_range_length. apply (pt_in_range pts sh j Hrange Hj). }
       assert (Hlong : points_long pts (length inds)).
       { intros j Hj. rewrite (Hptlen j Hj). unfold inds. etransitivity; [apply rows_length|]. rewrite Hpr.
-        etransitivity; [apply prune'_length|]. rewrite (nwf_length _ sh (nwf_filter _ _ Hwf) (filter_not_none_all nix)). lia. }
+        etransitivity; [apply prune'_length|]. rewrite (nwf_length _ sh (nwf_filter _ _ Hwf) (filter_not_none_all nix)). apply Nat.le_refl. }
       destruct (mask_strategy_irrelevant_proof pts Hsorted inds Hok Hlong (kf 0%nat)) as [Hnd [Hmem Heq]].
       fold mp in Hnd, Hmem, Heq.
       set (m := map (fun p : nat => (p, 0)) mp).
@@ -855,13 +869,13 @@ Section GetitemBasic.
                  (p < length pts)%nat /\ matches nix (pt pts p) a = true /\ (n_arr nix = 0%nat -> a = 0)).
       { intros p a. unfold m. rewrite in_map_iff. split.
         - intros [q [Hq Hin]]. inversion Hq; subst q a. apply Hmem in Hin. unfold mask_spec in Hin.
-          apply filter_In in Hin. destruct Hin as [Hp Hma]. apply in_seq in Hp. split; [lia|]. split; [|reflexivity].
+          apply filter_In in Hin. destruct Hin as [Hp Hma]. apply in_seq0 in Hp. split; [exact Hp|]. split; [|reflexivity].
           rewrite <- (pruned_rows_match nix sh _ 0 Hwf Hna); [exact Hma|].
-          rewrite Forall_forall in Hrange. apply Hrange. apply nth_In. lia.
+          apply (pt_in_range pts sh p Hrange Hp).
         - intros [Hp [Hma Ha0]]. rewrite (Ha0 Hn0) in *. exists p. split; [reflexivity|]. apply Hmem. unfold mask_spec.
-          apply filter_In. split; [apply in_seq; lia|].
+          apply filter_In. split; [apply in_seq0; exact Hp|].
           rewrite (pruned_rows_match nix sh _ 0 Hwf Hna); [exact Hma|].
-          rewrite Forall_forall in Hrange. apply Hrange. apply nth_In. lia. }
+          apply (pt_in_range pts sh p Hrange Hp). }
       assert (Hes : map (fun pa : nat * Z => (build nix false (nth (fst pa) pts []) (snd pa),
                                               nth (fst pa) (c_data x) (c_fill x))) m
                     = sel_entries V x nix m) by reflexivity.
@@ -897,23 +911,35 @@ Section GetitemBasic.
             apply rows_pos; [|assumption]. eapply forallb_incl; [exact Hincl|exact Epos]. }
           specialize (Heq Hposr).
           assert (Hss : StronglySorted lex_lt (map fst (sel_entries V x nix m))).
-          { unfold sel_entries, m. rewrite !map_map. cbn [sel_entry fst snd]. rewrite Heq. unfold mask_spec.
+          { unfold sel_entries, m. rewrite !map_map. cbn [sel_entry fst snd]. unfold mp, mask_pos. rewrite Heq. unfold mask_spec.
             apply SS_map_lt; [apply SS_filter, SS_seq|]. intros p q Hp Hq Hpq.
-            apply filter_In in Hp, Hq. destruct Hp as [Hp Hmp], Hq as [Hq Hmq]. apply in_seq in Hp, Hq.
-            assert (Hrp : in_range sh (pt pts p)) by (rewrite Forall_forall in Hrange; apply Hrange, nth_In; lia).
-            assert (Hrq : in_range sh (pt pts q)) by (rewrite Forall_forall in Hrange; apply Hrange, nth_In; lia).
+            apply filter_In in Hp, Hq. destruct Hp as [Hp Hmp], Hq as [Hq Hmq]. apply in_seq0 in Hp, Hq.
+            pose proof (pt_in_range pts sh p Hrange Hp) as Hrp. pose proof (pt_in_range pts sh q Hrange Hq) as Hrq.
+            unfold inds, rows in Hmp, Hmq. fold (rows (prune_indices nix sh)) in Hmp, Hmq.
             rewrite (pruned_rows_match nix sh _ 0 Hwf Hna Hrp) in Hmp.
             rewrite (pruned_rows_match nix sh _ 0 Hwf Hna Hrq) in Hmq.
-            apply (build_mono nix sh false _ _ 0 Hwf Hna Epos Hmp Hmq). apply pts_lex; [assumption| |]; lia. }
+            apply (build_mono nix sh false _ _ 0 Hwf Epos Hmp Hmq). apply pts_lex; assumption. }
           destruct (result_den V x nix Hcan Hwf Harr m Hm_mem _ (Permutation_refl _) Hss) as [Hc Hden].
           fold rs in Hc, Hden. rewrite Eos in Hc, Hden.
           split; [reflexivity|]. split; [reflexivity|]. split; [exact Hc|exact Hden].
         * (* sorted = False: the constructor sorts *)
           assert (Hss : StronglySorted lex_lt (map fst (sort_entries (sel_entries V x nix m)))).
           { apply (sort_sorted V (length (d0 :: osh))); [|assumption].
-            apply Forall_forall. intros y Hy. apply in_range_length. rewrite <- Eos. apply Hkr. apply in_map. exact Hy. }
+            apply Forall_forall. intros y Hy. apply (in_range_length (d0 :: osh) (fst y)).
+            apply (Hkr (fst y)). apply in_map. exact Hy. }
           destruct (result_den V x nix Hcan Hwf Harr m Hm_mem _ (sort_perm V _) Hss) as [Hc Hden].
           fold rs in Hc, Hden. rewrite Eos in Hc, Hden.
           split; [reflexivity|]. split; [reflexivity|]. split; [exact Hc|exact Hden].
   Qed.
 End GetitemBasic.
+
+(* non-vacuity of coo_getitem_basic_proof: a 2x3 array with fill 7, x[-1, ::-2, None] *)
+Example getitem_basic_nonvacuous :
+  let x := mkCOO [2; 3] [[0; 1]; [1; 0]; [1; 2]] [10; 20; 30] 7 in
+  let ix := [IInt (-1); ISlice None None (Some (-2)); INone] in
+  canonical Z x /\ shape_okb (c_shape x) = true /\ no_zero_step ix = true /\ basic ix = true
+  /\ getitem (fun _ => 1%nat) x ix = Ok (GArr (mkCOO [2; 1] [[0; 0]; [1; 0]] [30; 20] 7))
+  /\ (match np_index [2; 3] ix with Ok (sh', g) => sh' = [2; 1] /\ map g (all_indices sh') = [[1; 2]; [1; 0]] | _ => False end).
+Proof.
+  cbv zeta. split; [apply canonicalb_spec; reflexivity|]. repeat split.
+Qed.
